@@ -25,6 +25,16 @@ sensitivity:  s/QName(b"office:date-value") => Data::DateTimeIso(attr),/QName(b"
 sensitivity:  s/if p > col_max {/if p >= col_max + 2 {/
 sensitivity:  s/Ok(Event::Text(ref e)) if is_whitespace(e) => (), \/\/ indentation between cells/Ok(Event::Comment(_)) => (),/
 sensitivity:  s/Ok(Event::Text(ref e)) if paragraph_depth == 0 \&\& is_whitespace(e) => (),/Ok(Event::Comment(_)) => (),/
+
+fixture leg (leg 2 on real-world files): every table of /repo/tests/*.ods is tokenised independently
+(harness/src/fixtures.rs: rows with number-rows-repeated, cell / covered-cell runs with number-columns-repeated, value
+type + the value attribute that must accompany it, whitespace text nodes) and validated by Trace_OdsTable (values by tag).
+sensitivity (fixture leg ALONE, VERIF_ONLY=fixtures bin/mutant C04 ...@src/ods.rs): 4 KILLED, 2 SURVIVED
+sensitivity:  KILLED  s/.saturating_sub(i);/.saturating_sub(i + 1);/   s/cells.push(Data::Empty);/();/
+sensitivity:  KILLED  s/row_max = row_max + row_repeats - 1;/row_max = row_max + row_repeats;/   date-value => Data::String
+sensitivity:  SURVIVED s/&empty_cells\[col_min..\]/\&empty_cells/ and s/empty_col_repeats = repeats;/empty_col_repeats = 1;/ :
+sensitivity:           no fixture has a blank row inside data starting after column A, nor a repeated empty run in front of
+sensitivity:           a value (exactly why the suite never saw the first defect); the model legs kill both.
 """
 LEVEL = "model_checking"
 
@@ -33,6 +43,15 @@ THOROUGH = ["t_rows", "t_rows4", "t_runs", "t_big", "t_mid", "t_types", "t_cols"
 
 
 def run(ctx):
+    import os
+    if os.environ.get("VERIF_ONLY") == "fixtures":      # sensitivity experiments: the fixture leg alone
+        ctx.fixture_leg("ods", "ods", "Trace_OdsTable", "Trace_OdsTable.cfg")
+        return
+    run_model_legs(ctx)
+    ctx.fixture_leg("ods", "ods", "Trace_OdsTable", "Trace_OdsTable.cfg")
+
+
+def run_model_legs(ctx):
     ctx.rules.append(
         "TLC (MC_OdsTable) enumerates every physical table (sequence of table:table-row elements with "
         "number-rows-repeated, each a sequence of table-cell / covered-table-cell elements with "
